@@ -209,7 +209,7 @@ def run(prop, tier, quick_slices, thorough_slices, nontrivial, drive_profile="mi
         per_slice[name] = {"states": mcs[name]["distinct"], "transitions": total, "replayed": covered, "schedules": kept,
                            "maximal_schedules": len(lines), "graph_walks": len(wl), "u32_and_any_role_variants": len(variants)}
         edge_files.append(ef)
-    del extracted, graphs
+    del extracted
 
     # one harness process + one Trace_Endpoint run per slice (and one for the random histories), side by side:
     # every TLC worker deserialises the whole trie it walks, so several small tries are cheaper than one big one
@@ -245,17 +245,60 @@ def run(prop, tier, quick_slices, thorough_slices, nontrivial, drive_profile="mi
         nt = [n["id"] for n in pnodes[1:] if nontrivial(n)]
         leaves = [n["id"] for n in pnodes if not n["kids"] and n["id"] != 0]
         sample = brief_path(pnodes, nt[len(nt) // 2] if nt else leaves[0]) if (nt or leaves) else None
-        return pname, phs, pviols, pdrifts, g, len(nt), len(leaves), len(pnodes), sample
+        # histories at which the real object's observable state left the specification's (first one on each path)
+        dh = [([n["call"] for n in vlib.path_to(pnodes, nid)[1:]], tuple(sorted(fields))) for nid, fields in pdrifts[:400]] \
+            if pname.split(".")[0] in graphs else []
+        return pname, phs, pviols, pdrifts, g, len(nt), len(leaves), len(pnodes), sample, dh
 
     from concurrent.futures import ThreadPoolExecutor
     with ThreadPoolExecutor(max_workers=4 if thorough else 8) as ex:
         results = list(ex.map(do_part, parts))
+    # second pass, guided by the lock-step comparison: wherever the real object's state departed from the
+    # specification's (DRIFT - not a verdict by itself), EVERY continuation of that very history by up to three model
+    # steps is replayed and judged like any other history: a departure that the property does not forbid at once
+    # (something left behind in the store, a counter off by one) is followed to where the property sees it
+    nb_parts, nb_stats = [], {}
+    seen_sig = set()
+    r3 = random.Random(rng.randrange(1 << 30))
+    for res_ in results:
+        pname, dh = res_[0], res_[9]
+        sl = pname.split(".")[0]
+        for calls, fields in dh:
+            if nb_stats.get(sl, [0, 0])[0] >= (40 if thorough else 10):
+                break
+            loc = graphs[sl].locate(calls) if sl in graphs else None
+            if not loc:
+                continue
+            sig = (sl, loc[1], fields)
+            if sig in seen_sig:
+                continue
+            seen_sig.add(sig)
+            lines_ = graphs[sl].neighbourhood(loc[0], loc[1], 3, 5000 if thorough else 2000, r3)
+            st_ = nb_stats.setdefault(sl, [0, 0])
+            st_[0] += 1
+            st_[1] += len(lines_)
+            nf = os.path.join(wd, "nb_%s.ndjson" % sl)
+            with open(nf, "a") as f:
+                for l in lines_:
+                    f.write(l + "\n")
+    for sl in nb_stats:
+        per_slice[sl]["departures_followed"] = nb_stats[sl][0]
+        per_slice[sl]["neighbourhood_schedules"] = nb_stats[sl][1]
+        nf = os.path.join(wd, "nb_%s.ndjson" % sl)
+        pieces = vlib.split_schedules(nf)
+        for k, q in enumerate(pieces):
+            nb_parts.append(("nb_" + sl + ("" if len(pieces) == 1 else ".%d" % k), twin + ["--edges", q]))
+    graphs.clear()
+    if nb_parts:
+        vlib.log("[second pass] departures followed per slice (histories, schedules of their 3-step neighbourhood): %s" % json.dumps(nb_stats, sort_keys=True))
+        with ThreadPoolExecutor(max_workers=4 if thorough else 8) as ex:
+            results += list(ex.map(do_part, nb_parts))
     vlib.log("[time] build+model-check %.0fs, harness+judge %.0fs" % (t_mc, time.time() - t0 - t_mc))
     groups, viols, drifts = {}, [], []
     hs = {"calls": 0, "panics": 0, "inapplicable": 0, "ops": {}}
     nt_n = leaves_n = trie_n = 0
     samples = []
-    for pname, phs, pviols, pdrifts, g, n_nt, n_leaves, n_nodes, sample in results:
+    for pname, phs, pviols, pdrifts, g, n_nt, n_leaves, n_nodes, sample, _dh in results:
         for sig, gg in g.items():
             if sig in groups:
                 groups[sig]["count"] += gg["count"]
